@@ -96,7 +96,7 @@ def chart_text(res=192, song=None, sync=None, events=None, tracks=None, order=No
 # its sections through those entry points (bodies indented as in the file) instead of Chart.from_file.
 _SECTIONS_OF: dict = {}
 _ENTRY = {"how": None}
-ITERABLE_KINDS = ["list", "tuple", "iterator", "generator", "islice", "map", "file-object", "deque",
+ITERABLE_KINDS = ["list", "tuple", "iterator", "generator", "islice", "map", "file-object", "deque", "lines-with-terminators",
                   "track-level:iterator", "track-level:generator", "track-level:list", "track-level:map"]
 
 
@@ -118,6 +118,8 @@ def as_iterable(lines, how):
         return (ln.rstrip("\n") for ln in io.StringIO("".join(ln + "\n" for ln in lines)))
     if how == "deque":
         return collections.deque(lines)
+    if how == "lines-with-terminators":
+        return iter(io.StringIO("".join(ln + "\n" for ln in lines)))          # what iterating an open file yields: "\n" kept
     return list(lines)
 
 
@@ -250,8 +252,51 @@ def want_pairs(pairs):
     return [(Instrument[i], Difficulty[d]) for i, d in pairs]
 
 
+# ---------------------------------------------------------------------------------------------
+# Ambient state.  A library is called from inside applications that have configured the interpreter in their own way: debug
+# logging switched on, the thread's decimal context set to a few digits and a directed rounding mode ...  What a chart means
+# does not depend on any of it.  Every sixth call of outcome() puts one of these configurations in force - and leaves it in
+# force while the chart is being looked at, until the next call of outcome() restores the defaults.
+_AMBIENT = {"calls": 0, "mode": 0}
+AMBIENT_MODES = ["default", "debug-logging", "decimal prec=5 ROUND_DOWN", "decimal prec=4 ROUND_CEILING", "debug-logging + decimal prec=3 ROUND_UP"]
+
+
+def set_ambient(mode: int):
+    import decimal
+    root = logging.getLogger()
+    if not root.handlers:
+        root.addHandler(logging.NullHandler())
+    debug = mode in (1, 4)
+    root.setLevel(logging.DEBUG if debug else logging.WARNING)
+    for name in ("chartparse", "chartparse.chart", "chartparse.instrument", "chartparse.sync", "chartparse.track", "chartparse.metadata",
+                 "chartparse.globalevents"):
+        lg = logging.getLogger(name)
+        if name != "chartparse" or not lg.handlers:          # (a log capture in progress manages the package logger itself)
+            lg.setLevel(logging.DEBUG if debug else logging.NOTSET)
+    ctx = decimal.getcontext()
+    if mode == 2:
+        ctx.prec, ctx.rounding = 5, decimal.ROUND_DOWN
+    elif mode == 3:
+        ctx.prec, ctx.rounding = 4, decimal.ROUND_CEILING
+    elif mode == 4:
+        ctx.prec, ctx.rounding = 3, decimal.ROUND_UP
+    else:
+        ctx.prec, ctx.rounding = 28, decimal.ROUND_HALF_EVEN
+    _AMBIENT["mode"] = mode
+
+
+def next_ambient():
+    _AMBIENT["calls"] += 1
+    n = _AMBIENT["calls"]
+    mode = 1 + (n // 6) % 4 if n % 6 == 0 else 0
+    if mode != _AMBIENT["mode"]:
+        set_ambient(mode)
+    return mode
+
+
 def outcome(text: str, want=None):
     """Parse and classify: ('chart', chart) or ('raise', exception)."""
+    next_ambient()
     try:
         if _ENTRY["how"] is not None and want is None and text in _SECTIONS_OF:
             return "chart", parse_sections(_SECTIONS_OF[text], _ENTRY["how"])
